@@ -353,7 +353,21 @@ func r35NoSwappedArgs(c *core.Ctx) {
 			nInit++
 		}
 	}
-	if nInit == 0 {
+	// (a floor only while the function still has two parameters of one type that could be exchanged)
+	pairInInit := false
+	if ig := c.P.Lookup("main.initGPKGTarget"); ig != nil {
+		ps := ig.Obj.Type().(*types.Signature).Params()
+		for i := 0; i < ps.Len(); i++ {
+			for j := i + 1; j < ps.Len(); j++ {
+				if types.Identical(ps.At(i).Type(), ps.At(j).Type()) {
+					pairInInit = true
+				}
+			}
+		}
+	} else {
+		pairInInit = true
+	}
+	if nInit == 0 && pairInInit {
 		c.Bad(R, "instance-floor/args-not-swapped/main.*->main.initGPKGTarget", token.NoPos, "no call of initGPKGTarget from package main was examined (hand-confirmed floor is 1)")
 	}
 	c.Floor(R, 8)
